@@ -100,6 +100,11 @@ impl Block for ZeroCrossing {
             o.len()
         };
         for sample in input.iter() {
+            if opos == max_out {
+                // Output full. Stop before touching the next sample, so that
+                // every consumed sample has gone through the whole loop body.
+                break;
+            }
             n += 1;
             if self.counter == (self.last_cross + (self.clock / 2.0)) as u64 {
                 o.slice()[opos] = *sample;
@@ -108,9 +113,6 @@ impl Block for ZeroCrossing {
                 }
                 opos += 1;
                 self.last_cross += self.clock;
-                if opos == max_out {
-                    break;
-                }
             }
 
             let sign = *sample > 0.0;
